@@ -1,4 +1,5 @@
 import Moyo.Model.Oracle
+import Moyo.Model.Tolerance
 /-
 Driver commands for the pipeline oracles: `ds <case line>` answers
 `<tag> | <outcome> | <summary> | <failed clauses separated by " || ">`.
@@ -22,6 +23,9 @@ def step? (line : String) : Option String :=
         | .ok d => summary d
         | _ => "-"
       some s!"{cs.tag} | {outcomeName cs.out} | {summ} | {" || ".intercalate fails}"
+  | "c09replay" :: errs =>
+    -- exponents e_i (tolerance = requested * stride^e_i) at which attempts are made when the i-th attempt fails with errs[i]
+    some (Wire.ratsToString (Tol.replayErrors (errs.filter (· != "none"))))
   | _ => none
 
 end Moyo.DriverPipe
